@@ -19,7 +19,8 @@ EXTENDS Naturals, Sequences, FiniteSets
 
 CONSTANTS NObj,            \* number of objects
           MaxOps,          \* length bound of a behaviour
-          TypesPerObject   \* BOOLEAN: an object owns its algorithm description
+          TypesPerObject,  \* BOOLEAN: an object owns its algorithm description
+          UseOnce          \* BOOLEAN: an object is used at most once (a Child SA object is keyed once; an IKE SA object is probed again and again)
 
 VARIABLES created,   \* set of objects created so far
           shared,    \* what the one shared type object says (parameter index), 0 = nothing yet
@@ -35,7 +36,7 @@ New(o) == /\ o \notin created /\ Len(ops) < MaxOps
           /\ shared' = Param(o)
           /\ UNCHANGED seen
           /\ ops' = Append(ops, << "new", o >>)
-Use(o) == /\ o \in created /\ Len(ops) < MaxOps
+Use(o) == /\ o \in created /\ Len(ops) < MaxOps /\ (UseOnce => seen[o] = 0)
           /\ seen' = [seen EXCEPT ![o] = IF TypesPerObject THEN Param(o) ELSE shared]
           /\ UNCHANGED << created, shared >>
           /\ ops' = Append(ops, << "use", o >>)
